@@ -67,6 +67,44 @@ int main(void)
             unsigned long k = strtoul(t[4], NULL, 10);
             for (unsigned long i = 0; i < k; i++) printf("%s%" PRId32, i ? " " : "", gp_random_range(&st, lo, hi));
             puts("");
+        } else if (!strcmp(t[0], "mixfixed") && n == 2) {
+            /* the same draws written the way a program writes them: constants, one call after the other */
+            switch (atoi(t[1])) {
+            case 0: { GPRandomState s = gp_new_random_state(7);
+                      uint32_t a = gp_random(&s), b = gp_random(&s), c = gp_random(&s), d = gp_random(&s);
+                      double f = gp_frandom(&s); int32_t g = gp_random_range(&s, -5, 5);
+                      printf("r%" PRIu32 " r%" PRIu32 " r%" PRIu32 " r%" PRIu32 " f%" PRIu64 " g%" PRId32 " \n", a, b, c, d, (uint64_t)(f * 4294967296.0), g); break; }
+            case 1: { GPRandomState s = gp_new_random_state(12345);
+                      int32_t g1 = gp_random_range(&s, 0, 9); double f = gp_frandom(&s); uint32_t a = gp_random(&s); int32_t g2 = gp_random_range(&s, -100, 100);
+                      printf("g%" PRId32 " f%" PRIu64 " r%" PRIu32 " g%" PRId32 " \n", g1, (uint64_t)(f * 4294967296.0), a, g2); break; }
+            case 2: { GPRandomState s = gp_new_random_state(0);
+                      double f1 = gp_frandom(&s), f2 = gp_frandom(&s); int32_t g = gp_random_range(&s, 1, 6); uint32_t a = gp_random(&s);
+                      printf("f%" PRIu64 " f%" PRIu64 " g%" PRId32 " r%" PRIu32 " \n", (uint64_t)(f1 * 4294967296.0), (uint64_t)(f2 * 4294967296.0), g, a); break; }
+            default: puts("bad-op");
+            }
+        } else if (!strcmp(t[0], "mix") && n == 5) {
+            /* one generator state used by all three draw functions in turn: script letters r (gp_random), f (gp_frandom,
+             * printed as its numerator), g (gp_random_range lo hi).  The scripts "rrrrfg" and "frgfrg" are also compiled as
+             * straight-line code (what an optimiser sees in a program that calls the functions one after another). */
+            uint64_t seed = strtoull(t[1], NULL, 10);
+            int32_t lo = (int32_t)strtoll(t[2], NULL, 10), hi = (int32_t)strtoll(t[3], NULL, 10);
+            const char* sc = t[4];
+            GPRandomState st = gp_new_random_state(seed);
+#define PF(x) do { double f_ = (x); printf("f%" PRIu64 " ", (uint64_t)(f_ * 4294967296.0)); } while (0)
+            if (!strcmp(sc, "rrrrfg")) {
+                uint32_t a = gp_random(&st), b = gp_random(&st), c = gp_random(&st), d = gp_random(&st);
+                double f = gp_frandom(&st); int32_t g = gp_random_range(&st, lo, hi);
+                printf("r%" PRIu32 " r%" PRIu32 " r%" PRIu32 " r%" PRIu32 " ", a, b, c, d); PF(f); printf("g%" PRId32 " ", g);
+            } else if (!strcmp(sc, "frgfrg")) {
+                double f1 = gp_frandom(&st); uint32_t r1 = gp_random(&st); int32_t g1 = gp_random_range(&st, lo, hi);
+                double f2 = gp_frandom(&st); uint32_t r2 = gp_random(&st); int32_t g2 = gp_random_range(&st, lo, hi);
+                PF(f1); printf("r%" PRIu32 " g%" PRId32 " ", r1, g1); PF(f2); printf("r%" PRIu32 " g%" PRId32 " ", r2, g2);
+            } else for (const char* c = sc; *c; c++) {
+                if (*c == 'r') printf("r%" PRIu32 " ", gp_random(&st));
+                else if (*c == 'f') PF(gp_frandom(&st));
+                else if (*c == 'g') printf("g%" PRId32 " ", gp_random_range(&st, lo, hi));
+            }
+            puts("");
         } else puts("bad-op");
     }
     return 0;
